@@ -210,7 +210,8 @@ def run(rep, tier, seed):
         if len(rep.samples) < 3:
             rep.samples.append({'names': names, 'texts': len(txts), 'with_occurrence': nocc})
         if err:
-            rep.violations.append({'key': 'matcher', 'kind': 'trie', 'names': names, 'texts': txts[:0], 'lookups': lookups,
+            bad = [t for t in txts if run_case(names, [t], lookups, le)[0]][:1]
+            rep.violations.append({'key': 'matcher', 'kind': 'trie', 'names': names, 'texts': bad or txts, 'lookups': lookups,
                                    'what': err, 'text': err})
             continue
         rep.compared += len(obs)
@@ -275,5 +276,5 @@ def run(rep, tier, seed):
 def replay(payload):
     le = imp()
     names = [tuple(x) for x in payload['names']]
-    err, _ = run_case(names, payload.get('texts', []) or ['a b a b'], payload.get('lookups', []), le)
+    err, _ = run_case(names, payload.get('texts', []), payload.get('lookups', []), le)
     return err is None, err or 'matcher behaves as a map and reports exactly the occurrences'
